@@ -40,6 +40,10 @@ def check(ctx):
     gcm = ctx.model.module("dask/blockwise.py").func("_get_coord_mapping")
     ok = bool(find("reps = 1 if concatenate else dims[ind]", gcm)) and bool(find("_dummies_list.append([list(range(dims[ind])), [0] * reps])", gcm))
     ctx.ob("ALG.blockwise.broadcast-dummies", gcm, "dummy index of size n: coordinates [0..n-1] plus [0] * (1 if concatenate else n) for inputs that have one block along it", ok, "" if ok else "an input with a single block along a contracted index is passed once instead of once per block: with concatenate=False the lists handed to the function are no longer aligned by block index")
+    # ---------------- block_info / block_id travel as BlockwiseDep values: their tokens must cover their contents
+    from .C12 import handler_covers_fields
+
+    handler_covers_fields(ctx)
 
 
 VARIANTS = [
